@@ -70,7 +70,18 @@ fn edit_text(rng: &mut Rng, text: &str, around: Option<(usize, usize)>) -> (Stri
     }
     .min(n);
     let mut out = chars.clone();
-    let kind = match rng.below(3) {
+    let kind = match rng.below(5) {
+        // the tail or the head of the text goes: selections with an end-aligned cursor shrink to a prefix / suffix of what they were
+        3 if n >= 2 => {
+            let k = rng.range(1, 3.min(n as i64 - 1)) as usize;
+            out.truncate(n - k);
+            "truncate"
+        }
+        4 if n >= 2 => {
+            let k = rng.range(1, 3.min(n as i64 - 1)) as usize;
+            out.drain(0..k);
+            "behead"
+        }
         0 if pos < n => {
             out[pos] = if chars[pos] == 'Q' { 'Z' } else { 'Q' };
             "substitute"
@@ -92,7 +103,7 @@ fn edit_text(rng: &mut Rng, text: &str, around: Option<(usize, usize)>) -> (Stri
 }
 
 pub fn run(p: &Params, rep: &mut Report) {
-    rep.rule = "stores reached by seeded histories of the C01 generator (all selector kinds, begin- and end-aligned offsets, 1-4 byte text); protect_text in each of the four modes; every text-selecting annotation must validate, also after a STAM JSON save and reload, and after adding annotations and protecting again; then 10 (20) edits per store (substitution, insertion, deletion placed before, inside, at the edges of and after a selection) applied to the text inside the serialisation, reload, and the verdict of every annotation compared with whether its selected characters changed. distinct_nontrivial = distinct (stage, mode, text class, length class) and (edit kind, mode, verdict) observed".into();
+    rep.rule = "stores reached by seeded histories of the C01 generator (all selector kinds, begin- and end-aligned offsets, 1-4 byte text); protect_text in each of the four modes; every text-selecting annotation must validate, also after a STAM JSON save and reload, and after adding annotations and protecting again; then 10 (20) edits per store (substitution, insertion, deletion placed before, inside, at the edges of and after a selection; removal of 1-3 characters at the tail or the head of the text) applied to the text inside the serialisation, reload, and the verdict of every annotation compared with whether its selected characters changed. distinct_nontrivial = distinct (stage, mode, text class, length class) and (edit kind, mode, verdict) observed".into();
     rep.assumptions = vec![
         "which characters an annotation selects in a store is read from the store (text_join), judged by C04/C05".into(),
         "an edited serialisation that no longer loads is skipped and counted".into(),
